@@ -27,6 +27,10 @@ class _Stream(io.StringIO):
         return super().write(s)
 
 
+class FinalizerError(Exception):
+    pass
+
+
 class Lab:
     """An instrumented probe renderable with an event log (C / R / F per data object)."""
 
@@ -34,6 +38,7 @@ class Lab:
         C = iterkit.classes()
         self.Probe = C["Probe"]
         self.log: list[tuple[str, int]] = []
+        self.finalizer_fails = False
         lab = self
 
         class LoggedProbe(self.Probe):
@@ -54,6 +59,13 @@ class Lab:
             def _finalize_render_data_(cls, render_data):
                 lab.log.append(("F", id(render_data)))
                 super()._finalize_render_data_(render_data)
+                if lab.finalizer_fails:
+                    lab.finalizer_fails = False  # only the first invocation fails
+                    raise FinalizerError("injected finalizer failure")
+
+            def _handle_interrupted_draw_(self, render_data, render_args, output):
+                lab.log.append(("H", id(render_data)))
+                super()._handle_interrupted_draw_(render_data, render_args, output)
 
         self.cls = LoggedProbe
 
@@ -74,6 +86,7 @@ class Lab:
             p.fail_at = o["k"] or 1
             p.fail_kind = o["fail"]
         start = len(self.log)
+        self.finalizer_fails = o["fail"] == "finfail"
         outcome = "ok"
         kept = None
         out = _Stream(o["k"] if o["fail"] == "interrupt" else 0)
@@ -107,6 +120,7 @@ class Lab:
             stubs.set_term(size=(8, 6))
         del p
         gc.collect()
+        self.finalizer_fails = False
         events = [e for e, _ in self.log[start:]]
         if kept is not None:
             events.append("Qkept")
@@ -141,6 +155,8 @@ def expected_outcome(o):
     f = o["fail"]
     if f == "no":
         return "ok"
+    if f == "finfail":
+        return "FinalizerError"
     if f == "stop":
         return "StopDefiniteIterationError"
     if f == "interrupt":
